@@ -16,4 +16,11 @@ CHECKS["C10"] = dict(
     note="Assumes hooks H1 sit inside the critical sections they report (checked by dropping a hook: trace rejected); lock-free steps are inferred by TLC, not logged; bounded thread/operation counts in the exhaustive part; concurrent runs are sampled schedules.",
 )
 
+CHECKS["C13"] = dict(
+    technique="TLA+ model of the cache directory, writers, crashes and readers (FileCache.tla) checked by TLC; its crash and two-writer histories replayed with real processes killed at hook points H2 / goroutines gated at the same points; TLC validation of the recorded step order of a real Add",
+    text="TLC checks FinalIsComplete / no-partial-hit / distinct temp names for all interleavings of 2-3 writers with crashes at every step, stale entries and readers; every single-writer crash history is replayed with a real process terminated at that hook point and a fresh process reading the directory afterwards; every two-writer interleaving (sampled in quick, all 12k in thorough) is enforced step by step with blocking hooks; every truncation length of real entries and header/version edits must be reported or discarded, never executed; entries must be byte-identical across fresh processes; the recorded order of the steps of a real Add must be a behaviour of the specification.",
+    design_ref="§4 C13",
+    note="Process death only (not power loss); amd64 compiler engine; modules are three small generated ones; hooks H2 mark the steps of fileCache.Add.",
+)
+
 NOT_YET = "check not built yet in this round (work in progress; see DESIGN.md §4)"
